@@ -62,6 +62,15 @@ pub fn locate(diags: &[Diag], rd: &Rendered, lines: &[Line]) -> Result<Vec<Locat
                 break;
             }
         }
+        // a diagnostic that points behind the statement (at its trailing comment, at the end of the
+        // line) still belongs to the statement of that source line
+        if found.is_none() {
+            for (li, (ls, l)) in rd.map.iter().zip(lines.iter()).enumerate() {
+                if !matches!(l, Line::Blank | Line::Comment(_)) && ls.line == d.range.start.line && s >= ls.stmt.1 {
+                    found = Some((d.code.clone(), li, None));
+                }
+            }
+        }
         match found {
             Some(f) => out.push(f),
             None => return Err(format!("diagnostic {} at raw {} is on no statement", d.code, s)),
